@@ -6,15 +6,16 @@ from . import catalogue as K
 
 
 class Case:
-    __slots__ = ("entry", "payload", "src", "script", "default", "skind", "nfaults", "err")
+    __slots__ = ("entry", "payload", "src", "script", "default", "skind", "nfaults", "err", "wire_payload")
 
     def __init__(self, entry, payload, src="ov", script=(), default=True, skind="cont", nfaults=0, err="rec"):
         self.entry, self.payload, self.src = entry, payload, src
         self.script, self.default, self.skind, self.nfaults, self.err = list(script), default, skind, nfaults, err
+        self.wire_payload = None      # compact wire form of a very deep payload
 
     def wire(self):
         return {"mode": "deser", "tid": self.entry.tid, "src": self.src, "err": self.err, "script": self.script,
-                "default": self.default, "payload": self.payload}
+                "default": self.default, "payload": self.payload if self.wire_payload is None else self.wire_payload}
 
     def describe(self):
         return {"type": self.entry.rust(), "payload": self.payload, "value_source": self.src,
@@ -76,7 +77,7 @@ def coq_check(ctx, tag, cases, obs, comparators, extra_imports="", shards=None, 
                 tids[e.tid] = e
         defs = "".join("Definition t_%d : dres ty := Eval vm_compute in compile %s.\n" % (tid, e.coq()) for tid, e in sorted(tids.items()))
         rows = ["(%d, %s)" % (i, row(i)) for i in idx]
-        text = (HEADER % extra_imports + defs + C.cbigdef("cases", "N * %s" % typ, rows, 400)
+        text = (HEADER % extra_imports + defs + C.cbigdef("cases", "N * (%s)" % typ, rows, 400)
                 + C.evals(["bad_ids %s cases" % cmp for cmp in comparators]))
         files.append(("%s_%s_%d_%d" % (ctx.prop.lower(), tag, ctx.seed, s), text))
     outs = C.run_coq_files(files)
@@ -87,6 +88,34 @@ def coq_check(ctx, tag, cases, obs, comparators, extra_imports="", shards=None, 
         for k, b in enumerate(C.parse_idlists(out, len(comparators))):
             tot[k] = tot[k] + b
     return tot
+
+
+def cpair(cases, obs, i):
+    (a, b), (oa, ob) = cases[i], obs[i]
+    return "(%s, %s)" % (ccase(a, oa), ccase(b, ob))
+
+
+def decide_pairs(ctx, H, tag, pairs, pobs, corr, mons, corr_label, extra_imports="KMon"):
+    """like decide() but every case is a pair of runs (relational properties)"""
+    bads = coq_check(ctx, tag, pairs, pobs, [corr] + [m for m, _ in mons], extra_imports,
+                     row=lambda i: cpair(pairs, pobs, i), typ="dcase * dcase")
+    found = False
+    for (m, what), bad in zip(mons, bads[1:]):
+        ids = sorted(bad, key=lambda i: payload_size(pairs[i][0].payload) + payload_size(pairs[i][1].payload))[:3]
+        for i in ids:
+            found = True
+            ctx.violation("%s-%s-%d" % (tag, m, i), {
+                "kind": "monitor %s failed on the implementation: %s" % (m, what),
+                "first_run": dict(pairs[i][0].describe(), impl=pobs[i][0]),
+                "second_run": dict(pairs[i][1].describe(), impl=pobs[i][1]), "tier": ctx.tier})
+    if bads[0] and not found:
+        i = sorted(bads[0])[0]
+        ctx.violation("%s-corr-%d" % (tag, i), {
+            "kind": "correspondence broken (model and implementation disagree) but no monitor fails",
+            "theorem_or_correspondence": corr_label,
+            "first_run": dict(pairs[i][0].describe(), impl=pobs[i][0]),
+            "second_run": dict(pairs[i][1].describe(), impl=pobs[i][1]), "disagreements": bads[0].total}, no_input=True)
+    return bads
 
 
 def case_entries(c):
